@@ -119,6 +119,8 @@ def structure_ranges(truth, n):
 def mutated(rng, spec, data_len, truth):
     """A field-mutated / truncated / extended / polyglot variant of spec."""
     k = rng.randrange(6)
+    if data_len == 0 or not structure_ranges(truth, data_len):
+        k = 3
     mut = []
     if k == 0:      # flip bytes inside structures
         for _ in range(rng.choice([1, 1, 2, 4])):
